@@ -205,7 +205,7 @@ func genEdit(r *rand.Rand, s *scriptWriter, ids []string, length int, rich float
 		case 7:
 			s.op("Siblings", "a", a, "id", pick(r, all), "out", out)
 		case 8:
-			s.op("Descendants", "a", a, "id", pick(r, all), "depth", 1+r.Intn(4), "out", out)
+			s.op("Descendants", "a", a, "id", pick(r, all), "depth", pick(r, []int{-2, 0, 1, 1, 2, 2, 3, 4, 1 << 30}), "out", out)
 		case 9:
 			s.op("ByPurlType", "a", a, "ptype", pick(r, []string{"npm", "golang", "deb", "generic"}), "out", out)
 		case 10:
